@@ -376,10 +376,12 @@ CHECKS = {'C01': {'level': 'exploration',
          'rule': 'model-based stateful histories over a string column whose values come from a 5-value alphabet with forced duplicates (incl. the '
                  'empty string) and default / order-sensitive merge functions: inserts, overwrites (also to an existing value), merges, deletes, '
                  'reinserts, prefills of 3..16390 rows, patterned bulk deletes, rollbacks; the sort index is created before or after the data and '
-                 'can be dropped and re-created; before Ascend a drawn filter (none, With/Without a bitmap index, WithString predicate, '
-                 'With(column)). Oracle: the offsets passed to the callback are exactly {selected rows holding a value}, each once; the values read '
-                 "at the callback equal the model's and are non-decreasing. non-trivial = >=2 visited rows share a value after some row was "
-                 'overwritten or deleted since the index was created; distinct = hash of the trace',
+                 'can be dropped and re-created; before Ascend a drawn filter: none, With/Without a bitmap index, WithString predicate, '
+                 'With(column), or an ARBITRARY chain of 1..5 filters from the C04 grammar '
+                 '(With/Without/Union/WithUnion/WithValue/WithInt/WithUint/WithFloat/WithString over indexes, columns and missing names) evaluated '
+                 'by the C04 set-algebra model. Oracle: the offsets passed to the callback are exactly {selected rows holding a value}, each once; '
+                 "the values read at the callback equal the model's and are non-decreasing. non-trivial = >=2 visited rows share a value after some "
+                 'row was overwritten or deleted since the index was created; distinct = hash of the trace',
          'assumptions': ['quiescent checks (no writer runs during Ascend)'],
          'tests': [{'run': '^TestC16$',
                     'checks': {'quick': 300, 'thorough': 3000},
